@@ -43,6 +43,15 @@ def crop_layers(k, first=1):
              'inherit': True} for i in range(first, first + k)]
 
 
+def small_crop_layers(k):
+    """the Crop pattern with functions whose values stay small (the symbolic values of crop_layers double in size per layer, which
+    would dominate any CPU time measured on a deep stack)"""
+    for i in range(1, 39):
+        sympool.TABLE[f't{i:03d}'] = lambda *a: 'v'
+    return [{'t': 'transform', 'fields': {'image': [f't{(2 * i) % 38 + 1:03d}', ['image', '_box']]}, 'params': {'_box': [f't{(2 * i + 1) % 38 + 1:03d}', ['image']]},
+             'inherit': True} for i in range(1, k + 1)]
+
+
 def chain_layers(k):
     return [{'t': 'transform', 'fields': {'image': [f's{i % 150:03d}', ['image']]}, 'params': {}, 'inherit': True} for i in range(1, k + 1)]
 
@@ -67,7 +76,9 @@ def family(name, k, work):
     root = os.path.join(work, f'{name}-{k}')
     shutil.rmtree(root, ignore_errors=True)
     field, key = 'image', 'a'
-    if name.startswith('crop'):
+    if name.startswith('smallcrop'):
+        spec = [SRC] + small_crop_layers(k)
+    elif name.startswith('crop'):
         spec = [SRC] + crop_layers(k)
     elif name.startswith('chain'):
         spec = [SRC] + chain_layers(k)
@@ -115,7 +126,9 @@ def main():
     for name in ('crop', 'crop+ram', 'crop+disk', 'crop+filter', 'crop+groupby', 'chain', 'chain+ram', 'fanin', 'fanin+ram', 'metadiamond'):
         for k in (a.k, 2 * a.k):
             out.append(family(name, k, a.work))
-    dump({'rows': out}, a.out)
+    # deeper stacks for the disk cache only: a cost of 2^k inside CPython (comparing nested hash values) shows in CPU time from k ~ 20 on
+    deep = [dict(family('smallcrop+disk', k, a.work), deep=True) for k in (11, 22)]
+    dump({'rows': out, 'deep': deep}, a.out)
 
 
 if __name__ == '__main__':
